@@ -80,6 +80,7 @@ def run(res, tier, seed, replay):
         cid, site, N, k, m, nt = c
         case = dict(id=cid, site=site, N=N, matching_calls=k, non_matching_calls=m, threads=nt)
         o = obs.get(cid, {})
+        if str(o.get("CHILD", ["?"])[0]).startswith("skipped"): continue      # not run: two earlier cases of its batch blocked until the watchdog killed them (reported there)
         if "CALLS" not in o or "EXIT" not in o or o.get("CHILD", ["?"])[0] != "exit:0":
             res.violation("concurrent counting run did not complete (crash or abort)", case, o); continue
         calls = dict(x.split("=") for x in o["CALLS"]); ex = o["EXIT"][0]
@@ -104,6 +105,7 @@ def run(res, tier, seed, replay):
         case = dict(id=cid, site=site, N=N, threads=nt, lifetimes_per_thread=rounds, matching_calls_per_lifetime=kk, replay=f"real count <<< '{cid} churn {site} {nt} {rounds} {kk}'")
         o = cobs.get(cid, {})
         want = f"admitted={min(kk, N)},overcalled={kk - min(kk, N)},other=0,exit=" + ("normal" if kk == N else f"panic:count:{N}:{kk}")
+        if str(o.get("CHILD")).startswith("skipped"): continue
         if o.get("CHILD") != "exit:0" or "CHURN" not in o:
             res.violation(f"churn run did not complete ({o.get('CHILD')})", case, str(o)[:400]); continue
         groups = o["CHURN"].split(" ")[1:]
